@@ -282,11 +282,12 @@ def invLoop (a s : α) : Nat → α → α → Nat → Option Nat
     else some x
 
 /-- `binomial_inversion(n, p)`: `a = (n as f64 + 1.) * s` (repair F45: `n + 1` was formed in `u64`), start term
-`(1. - p).powf(n as f64)` (repair F41: it was `powi(n as i32)`, which wrapped `n ≥ 2³¹`). -/
+`(n as f64 * (-p).ln_1p()).exp()` (repairs F41/F46: it was `(1. - p).powi(n as i32)`, which wrapped `n ≥ 2³¹` and lost
+`p < 2⁻⁵³`). -/
 def inversion (fuel : Nat) (n : Nat) (p : α) (g : Rng) : Option (Nat × Rng) :=
   let s := p / (1 - p)
   let a := ((n : α) + 1) * s
-  let r := Transc.pow (1 - p) (n : α)
+  let r := Transc.exp ((n : α) * Log1p.log1p (-p))
   let (u, g) := g.f64 (α := α)
   (invLoop a s fuel u r 0).map fun x => (x, g)
 
